@@ -3,22 +3,85 @@ times out on them). Shape of the name (proved by symbolic execution of main):
    "inputs/robot_" d1 "_w" d2 "_l" d3 "_r" d4 "_rb" d5 "_lb" d6 "_tb" d7 "_lt" d8 f ".py"
 with d1..d4 = str(int >= 0) and d5..d8 = prob_to_str(k/100) = str(k): non-empty digit strings (A-STRINT + the 99 ground
 obligations), f in {"", "_force_down"}. Stage i peels one field: from  d SEP d' T = e SEP e' U  it follows d = e and
-d' T = e' U, which is the hypothesis of stage i+1; the last stage peels d8 and the flag. Each query asserts the negation."""
+d' T = e' U, which is the hypothesis of stage i+1; the last stage peels d8 and the flag. Each lemma query asserts the
+negation of `hyp => concl` over free string constants (i.e. the universally quantified lemma).
+
+COMPOSITION (`compose:nine-fields`): the nine-field statement itself -- all sixteen digit strings, both flags, equal names
+=> every field and the flag are equal -- is discharged as ONE ground query whose only hypotheses besides the statement's
+own are the eight lemmas INSTANTIATED at the terms of the chain. Lemma text and instance come from the same template
+(`stage_formula` / `last_formula`), the instance being the template with the lemma's constants replaced by terms, so that
+each hypothesis of the composition is syntactically an instance of a separately discharged lemma. The direct nine-field
+query without the instances is beyond both string solvers (100 s); with them it is propositional up to associativity of
+str.++ (0.4 s)."""
 HEAD = '(set-logic ALL)\n(define-fun digs ((s String)) Bool (str.in_re s (re.+ (re.range "0" "9"))))\n(define-fun flag ((s String)) Bool (or (= s "") (= s "_force_down")))\n'
 SEPS = ["_w", "_l", "_r", "_rb", "_lb", "_tb", "_lt"]
+PREFIX = "inputs/robot_"
+
+
+def _cat(*parts):
+    parts = [p for p in parts if p != '""']
+    return '(str.++ ' + ' '.join(parts) + ')' if len(parts) > 1 else parts[0]
+
+
+def stage_formula(prefix, sep, d, e, d2, e2, T, U):
+    """(hypothesis, conclusion) of one peel step over arbitrary string TERMS d, e, d2, e2, T, U."""
+    pre = [f'"{prefix}"'] if prefix else []
+    hyp = (f'(and (digs {d}) (digs {e}) (digs {d2}) (digs {e2}) '
+           f'(= {_cat(*pre, d, chr(34) + sep + chr(34), d2, T)} {_cat(*pre, e, chr(34) + sep + chr(34), e2, U)}))')
+    concl = f'(and (= {d} {e}) (= {_cat(d2, T)} {_cat(e2, U)}))'
+    return hyp, concl
+
+
+def last_formula(d, e, f, g):
+    hyp = f'(and (digs {d}) (digs {e}) (flag {f}) (flag {g}) (= (str.++ {d} {f} ".py") (str.++ {e} {g} ".py")))'
+    concl = f'(and (= {d} {e}) (= {f} {g}))'
+    return hyp, concl
+
+
+def _decl(names):
+    return ' '.join(f'(declare-fun {n} () String)' for n in names) + '\n'
 
 
 def stage(prefix, sep):
-    return HEAD + ('(declare-fun d () String) (declare-fun e () String) (declare-fun d2 () String) (declare-fun e2 () String) (declare-fun T () String) (declare-fun U () String)\n'
-                   '(assert (and (digs d) (digs e) (digs d2) (digs e2)))\n'
-                   f'(assert (= (str.++ "{prefix}" d "{sep}" d2 T) (str.++ "{prefix}" e "{sep}" e2 U)))\n'
-                   '(assert (not (and (= d e) (= (str.++ d2 T) (str.++ e2 U)))))\n(check-sat)\n')
+    hyp, concl = stage_formula(prefix, sep, 'd', 'e', 'd2', 'e2', 'T', 'U')
+    return HEAD + _decl(['d', 'e', 'd2', 'e2', 'T', 'U']) + f'(assert {hyp})\n(assert (not {concl}))\n(check-sat)\n'
 
 
-LAST = HEAD + ('(declare-fun d () String) (declare-fun e () String) (declare-fun f () String) (declare-fun g () String)\n'
-               '(assert (and (digs d) (digs e) (flag f) (flag g)))\n(assert (= (str.++ d f ".py") (str.++ e g ".py")))\n'
-               '(assert (not (and (= d e) (= f g))))\n(check-sat)\n')
+_h, _c = last_formula('d', 'e', 'f', 'g')
+LAST = HEAD + _decl(['d', 'e', 'f', 'g']) + f'(assert {_h})\n(assert (not {_c}))\n(check-sat)\n'
 # str(int) of a non-negative int is a non-empty digit string, and is injective (A-STRINT, stated over str.from_int)
 STRINT = HEAD + ('(declare-fun x () Int) (declare-fun y () Int)\n(assert (and (>= x 0) (>= y 0)))\n'
                  '(assert (not (and (digs (str.from_int x)) (=> (= (str.from_int x) (str.from_int y)) (= x y)))))\n(check-sat)\n')
-LEMMAS = [(f'peel-{i}:{sep}', stage("inputs/robot_" if i == 0 else "", sep)) for i, sep in enumerate(SEPS)] + [('peel-last:flag.py', LAST)]
+# the injectivity half of A-STRINT is within z3's reach (the digit-string half is not decided by either solver and stays assumed)
+STRINT_INJ = ('(set-logic ALL)\n(declare-fun x () Int) (declare-fun y () Int)\n'
+              '(assert (and (>= x 0) (>= y 0) (= (str.from_int x) (str.from_int y)) (not (= x y))))\n(check-sat)\n')
+
+
+def _tail(V, fl, i):
+    """text after field i+2 of the name: sep_{i+1} V[i+2] ... fl ".py" (as a list of terms)"""
+    out = []
+    for j in range(i + 1, 7):
+        out += [f'"{SEPS[j]}"', V[j + 1]]
+    return out + [fl, '".py"']
+
+
+def compose():
+    D = [f'd{i}' for i in range(1, 9)]
+    E = [f'e{i}' for i in range(1, 9)]
+    txt = HEAD + _decl(D + E + ['f', 'g'])
+    # the statement's own hypotheses: digit strings, flags, equal names of the shape main was proved to produce
+    txt += '(assert (and %s (flag f) (flag g)))\n' % ' '.join(f'(digs {v})' for v in D + E)
+    name = lambda V, fl: _cat(f'"{PREFIX}"', V[0], *[t for j in range(7) for t in (f'"{SEPS[j]}"', V[j + 1])], fl, '".py"')
+    txt += f'(assert (= {name(D, "f")} {name(E, "g")}))\n'
+    # instances of the eight lemmas (same templates, constants replaced by the chain's terms)
+    for i, sep in enumerate(SEPS):
+        hyp, concl = stage_formula(PREFIX if i == 0 else "", sep, D[i], E[i], D[i + 1], E[i + 1], _cat(*_tail(D, 'f', i)), _cat(*_tail(E, 'g', i)))
+        txt += f'(assert (=> {hyp} {concl}))\n'
+    hyp, concl = last_formula(D[7], E[7], 'f', 'g')
+    txt += f'(assert (=> {hyp} {concl}))\n'
+    txt += '(assert (not (and %s (= f g))))\n(check-sat)\n' % ' '.join(f'(= {a} {b})' for a, b in zip(D, E))
+    return txt
+
+
+LEMMAS = ([(f'peel-{i}:{sep}', stage(PREFIX if i == 0 else "", sep)) for i, sep in enumerate(SEPS)] + [('peel-last:flag.py', LAST)]
+          + [('compose:nine-fields', compose()), ('strint-injective', STRINT_INJ, 'z3')])
